@@ -349,8 +349,10 @@ def synced_marker(r, ctx):
         ents = [describe_operand(push, e.args[0]) for e in push.calls if e.name == "entry" and push.dominates(e.block, i)]
         r.check(ev == "Synced" and describe_rvalue(push, rv) == "True" and ents and all(x.endswith("." + MAPFIELD[sub]) for x in ents), "push/Synced(%s)/send_synced:=true" % sub, push.loc(line),
                 "Synced(%s) marks the %s uplink" % (sub, MAPFIELD.get(sub)), "Synced(%s) marks %s" % (sub, ents))
-    reps = [c for c in pop.calls if c.name == "replace" and describe_operand(pop, c.args[0]).endswith("send_synced")]
-    r.check(len(reps) == 3 and all(describe_operand(pop, c.args[1]) == "False" for c in reps), "pop/send_synced-consumed", where(pop), "each arm consumes the marker with mem::replace(send_synced, false)",
+    # the marker is consumed by reading and clearing it in one go: mem::replace(m, false), mem::take(m), or an assignment of false
+    reps = [c for c in pop.calls if c.name in ("replace", "take") and (c.defpath or "").startswith("core::mem::") and describe_operand(pop, c.args[0]).endswith("send_synced")
+            and (c.name == "take" or describe_operand(pop, c.args[1]) == "False")]
+    r.check(len(reps) == 3, "pop/send_synced-consumed", where(pop), "each arm consumes the marker with mem::replace(send_synced, false)",
             "send_synced is not consumed in every arm: synced would be sent twice or never")
     ms = aggregates(pop, "write_fut::WriteAction", "MapSynced")
     for (blk, idx, ops, line, variant, dest) in ms:
